@@ -20,7 +20,10 @@ def check(ctx):
         pick = []
         for k, ss in by.items():
             ss.sort(key=lambda s: -len(s["body"]))
-            pick += [ss[0]] + ([ss[-1]] if len(ss) > 1 else [])
+            if k[0] in ("jt1078.Decode", "jt808.Decode"):
+                pick += ss          # few and short: keep them all (history test runs over all seed pairs)
+            else:
+                pick += [ss[0]] + ([ss[-1]] if len(ss) > 1 else [])
         with open(seeds, "w") as f:
             for s in pick:
                 f.write(json.dumps(s) + "\n")
